@@ -17,7 +17,7 @@
 From AV Require Import Base.Bytes Base.Outcome Hash.HashModel Spec.SpecOps Spec.SpecReal Tree.Heap Tree.Ops Tree.Script Tree.Inv Tree.Range Tree.ValidSubs
   Tree.SpecWF Tree.SpecWFReal Tree.RangeProofsCalc Tree.RangeProofsOps Tree.RangeProofsLoader Tree.RangeProofsReal Tree.RangeProofsParser Tree.RangeProofsNamed Tree.CopyProofsDefs Tree.RangeProofsInv Tree.Project Tree.RangeProofsProject Tree.RangeProofsReload
   Tree.CompatTyped Tree.CompatHist1 Tree.CompatHist4 Tree.RangeProofsAttach Tree.RangeProofsAttachCopy
-  Tree.Serialize Tree.Files Tree.ProjectCanon Tree.RangeProofsReloadFile Tree.RangeProofsCanon.
+  Tree.Serialize Tree.Files Tree.ProjectCanon Tree.RangeProofsReloadFile Tree.RangeProofsCanon Tree.RangeProofsMoveSame.
 From AV Require Xml.Serializer Xml.StrictValidDef Xml.RoundTripFile.
 From AV Require Xml.Parser.
 Open Scope list_scope.
@@ -473,3 +473,23 @@ Theorem C07_reload_clean_world :
       exists st, Parser.load strict T tab_el tab_at tab_en check_fn float_parse text = Val (Parser.Ret t st) /\
                  Parser.p_warnings st = [] /\ Parser.p_version st = ver /\ Parser.p_standalone st = f_standalone fl.
 Proof. exact reload_clean_world. Qed.
+
+(* ------------------------------------------------------------------ move: the order invariant of the destination without side cases *)
+(* [U] closes the two side hypotheses of C07_order_inv_move part 1 ("ms = m", "vs = v") and the excluded combination
+   "the parent link names h but the models differ": the model of a child is the model of its parent (model_of walks the
+   parent links), a version difference makes the call fail with VersionMismatch, and move_element_here of an element that
+   already is a child of the destination changes nothing.  So: under EVERY successful move_element_here[_at] the child list of
+   the destination stays in specification order (for the other nodes see C07_order_inv_move part 2). *)
+Theorem C07_order_inv_move_all :
+  forall (T : tables), SpecWF T ->
+  forall (tab_en : nametab) (check_fn : N -> list N -> res bool) (LATEST : N)
+         (h mv : id) (n mn : node) (ms m vs v : N) (w : world) (c : id) (w' : world) (items : list (option N)),
+  w_nodes w h = Some n -> w_nodes w mv = Some mn ->
+  model_of mv w = Val (OK ms, w) -> model_of h w = Val (OK m, w) ->
+  min_version LATEST mv w = Val (OK vs, w) -> min_version LATEST h w = Val (OK v, w) ->
+  items_of w (n_content n) = Some items -> Ordered T (n_type n) v items ->
+  (exists pos, e_move_element_here_at T tab_en check_fn LATEST h mv pos w = Val (OK c, w')) \/
+  e_move_element_here T tab_en check_fn LATEST h mv w = Val (OK c, w') ->
+  exists n' items', w_nodes w' h = Some n' /\ n_type n' = n_type n /\
+    items_of w' (n_content n') = Some items' /\ Ordered T (n_type n) v items'.
+Proof. exact order_inv_move_all. Qed.
